@@ -1,6 +1,8 @@
 import DaeVerif.C03.Layout
 import DaeVerif.C03.RouteOf
 import DaeVerif.C03.Janitor
+import DaeVerif.C03.Dae0
+import DaeVerif.C03.Consumer
 import DaeVerif.Common.Proto
 /-!
 Line-protocol driver for C03.  The SAME op file is read by the native C driver
@@ -14,6 +16,11 @@ open DaeVerif DaeVerif.Proto DaeVerif.C03
 structure St where
   w : World := {}
   maps : C02.KMaps := C02.KMaps.empty
+  /-- the skb as the last `frame` op left it: mark, cb[0], cb[1], `skb->protocol` -/
+  last : Nat × Nat × Nat × Nat := (0, 0, 0, 0)
+  /-- the control plane's UDP endpoints with their routing caches, its clock, `udpRouteScopeSensitive` -/
+  us : UState := {}
+  scope : Bool := false
 
 def hx (b : Bytes) : String := bytesToHex b
 
@@ -105,10 +112,16 @@ def constTable : List (String × Nat) := [
   ("connectivity_max_entries", CONNECTIVITY_MAX),
   ("routingHandoffTimeout", HANDOFF_TIMEOUT),
   ("L4ProtoType_TCP", L4ProtoType_TCP), ("L4ProtoType_UDP", L4ProtoType_UDP),
-  ("IpVersionType_4", IpVersionType_4), ("IpVersionType_6", IpVersionType_6)]
+  ("IpVersionType_4", IpVersionType_4), ("IpVersionType_6", IpVersionType_6),
+  ("UdpRoutingResultCacheTtl", UDP_ROUTING_CACHE_TTL), ("tcpRoutingLookupRetryAttempts", TCP_LOOKUP_RETRY_ATTEMPTS),
+  ("tcpRoutingLookupRetryDelay", TCP_LOOKUP_RETRY_DELAY), ("OutboundControlPlaneRouting", OUTBOUND_CONTROL_PLANE_ROUTING),
+  ("PACKET_HOST", PACKET_HOST), ("PACKET_OTHERHOST", PACKET_OTHERHOST), ("BPF_F_INGRESS", BPF_F_INGRESS)]
+
+def recStr (r : RResult) : String :=
+  s!"{r.outbound}:{r.mark}:{r.must}:{r.dscp}:{hx (fit 6 r.mac)}:{hx (fit 16 r.pname)}:{r.pid}"
 
 def resetSt (st : St) : St :=
-  { w := { connCap := st.w.connCap, handoffCap := st.w.handoffCap, rtrackCap := st.w.rtrackCap }, maps := C02.KMaps.empty }
+  { last := (0, 0, 0, 0), us := {}, scope := false, w := { connCap := st.w.connCap, handoffCap := st.w.handoffCap, rtrackCap := st.w.rtrackCap }, maps := C02.KMaps.empty }
 
 def handle (st : St) (line : String) : St × String :=
   match words line with
@@ -201,8 +214,59 @@ def handle (st : St) (line : String) : St × String :=
         s!" conn={diffMaps (connImg w) (connImg w')} ho={diffMaps (hoImg w) (hoImg w')}" ++
         s!" rt={diffMaps (rtImg w) (rtImg w')} ck={diffMaps (ckImg w) (ckImg w')}" ++
         s!" ev=[{";".intercalate evs}] ovf={w'.ovfUdp}:{w'.ovfTcp}"
-      ({ st with w := w' }, out)
+      ({ st with w := w', last := (o.mark, o.cb0, o.cb1, proto) }, out)
     | _, _, _, _, _, _, _, _, _, _, _ => (st, "bad-op")
+  | ["scope", v] =>
+    match v.toNat? with
+    | some v => ({ st with scope := v != 0 }, "-")
+    | none => (st, "bad-op")
+  | ["ep", what, sip, sport, dst] =>
+    -- an endpoint of the UDP endpoint pool appears / disappears (its cache starts empty)
+    match hexToNat? sip, sport.toNat?,
+        (if dst = "-" then some none else match dst.splitOn ":" with
+          | [a, p] => (do let a ← hexToNat? a; let p ← p.toNat?; pure (some (a, p)))
+          | _ => none) with
+    | some sip, some sport, some dst =>
+      let k : EKey := ⟨(sip, sport), dst⟩
+      let eps := st.us.eps.filter (·.1 != k)
+      if what = "add" then ({ st with us := { st.us with eps := (k, none) :: eps } }, "-")
+      else if what = "del" then ({ st with us := { st.us with eps := eps } }, "-")
+      else (st, "bad-op")
+    | _, _, _ => (st, "bad-op")
+  | ["use", l4, sip, sport, dip, dport, age, dtms] =>
+    -- the record the TCP relay (handleConn head) / the UDP ingress task works with, `dtms` ms of control-plane time later
+    match l4.toNat?, hexToNat? sip, sport.toNat?, hexToNat? dip, dport.toNat?, age.toNat?, dtms.toNat? with
+    | some l4, some sip, some sport, some dip, some dport, some age, some dtms =>
+      let us := { st.us with ut := st.us.ut + dtms * 1000000 }
+      let k := retrieve st.w ⟨sip, dip, sport, dport, l4⟩ (st.w.now + age)
+      if l4 = IPPROTO_TCP then
+        ({ st with us := { us with ut := us.ut + tcpConsumerDelay k } },
+          s!"use={recStr (tcpConsumer k)} fresh=- el={tcpConsumerDelay k}")
+      else
+        let x := udpConsumer st.scope us (sip, sport) (dip, dport) k
+        ({ st with us := x.u }, s!"use={recStr x.rr} fresh={boolStr x.fresh} el=0")
+    | _, _, _, _, _, _, _ => (st, "bad-op")
+  | ["peer", mask] =>
+    -- tproxy_dae0peer_ingress on the skb the last frame op left (after a redirect: the handed-over frame)
+    match mask.toNat? with
+    | some mask =>
+      let listeners := (List.range 3).filter fun i => mask / 2 ^ i % 2 == 1
+      let (mk, cb0, cb1, proto) := st.last
+      let o := dae0peerIngress listeners mk cb0 cb1 proto
+      let opt := fun (x : Option Nat) => match x with | some v => toString v | none => "-"
+      (st, s!"v={o.act} mark={o.mark} ptype={opt o.pktType} assign={opt o.assigned}")
+    | none => (st, "bad-op")
+  | ["d0", proto, lin, pull, hex] =>
+    -- tproxy_dae0_ingress on a frame dae sends back towards a captured client
+    match proto.toNat?, lin.toNat?, pull.toNat?, frameBytes? hex with
+    | some proto, some lin, some pull, some bytes =>
+      let w := st.w
+      let (w', o) := dae0Ingress w ⟨bytes, lin, pull != 0, proto⟩
+      let redir := match o.redir with | none => "-" | some (i, f) => s!"{i}:{f}"
+      let pt := match o.pktType with | none => "-" | some v => toString v
+      let pkt := if o.bytes = bytes then "=" else hx o.bytes
+      ({ st with w := w' }, s!"v={o.act} redir={redir} ptype={pt} pkt={pkt} rt={diffMaps (rtImg w) (rtImg w')}")
+    | _, _, _, _ => (st, "bad-op")
   | ["parse", l2, proto, lin, pull, hex] =>
     match l2.toNat?, proto.toNat?, lin.toNat?, pull.toNat?, frameBytes? hex with
     | some l2, some proto, some lin, some pull, some bytes =>
